@@ -10,8 +10,52 @@ from ..terms import T, sym, t_mul, t_add, t_pow, is_num, canon, show, subterms
 from .c13_model import (World, arg, NAMES, E, lin, tensor, norm, value, same_value, raw, raw_name, substitute, linear_form,
                         permutation_map, as_self, fmt, frac, indices_of)
 
-EXPLANATION = "see below"
-ASSUMPTIONS = []
+EXPLANATION = (
+    "Every function is evaluated by the abstract evaluator (sa.symex) over a model of the container algebra "
+    "(sa/rules/c13_model.py): a container is a record that carries a value (sums/products/powers of numbers, index symbols and "
+    "tensor atoms, normalised like sympy's automatic evaluation) and its assumptions; terms, objects, brackets, prefactors, indices "
+    "are derived from the value. The verdicts compare the evaluated result with the expected value written down independently, by "
+    "exact rational evaluation at pseudo-random points (every tensor atom an independent unknown); source spelling never enters. "
+    "R13a: canonicalize_sign on 15 fractions (numerator/brackets with right, wrong, mixed signs; odd/even powers; only_denom): "
+    "pref*num/denom unchanged and afterwards occupied energies added, virtual subtracted; signs that no factor -1 can fix are "
+    "refused; Term.sign table. R13b: permute_num, Term.symmetrize and derivative compute 1/(n+1) (x + sum_P f_P P x) over exactly the "
+    "operations with a factor (only contracted indices, given eri symmetry forwarded); denom_eri_sym decision table (P D = D keeps "
+    "the factor, P D = -D negates it, otherwise None; instance untouched). R13c: D^(U)_(L) (SymmetricTensor, bra-ket symmetry -1) "
+    "stands for 1/(sum e_U - sum e_L): symbolic_denominator(brackets) = 1/denominator and Obj.use_explicit_denominators(D**n) = "
+    "(sum e_U - sum e_L)**(-n) under that meaning (both directions against the same interpretation), registration / "
+    "de-registration of the name, brackets with coefficients other than +-1 refused, Term/Expr.use_symbolic_denominators rebuild "
+    "the term / add every term once. R13d: homomorphism by evaluation on all container levels of use_explicit_denominators, "
+    "block_diagonalize_fock, expand_antisym_eri, expand_intermediates: M(sum t) = sum M(t), M(prod o) = prod M(o), "
+    "M((sum t)**n) = (sum M(t))**n, outer arguments forwarded by parameter name, raw values requested, targets / registrations "
+    "kept; Obj.expand_antisym_eri = ((pr|qs) - (ps|qr))**n with the spin-allowed parts; Obj.expand_intermediates: n separate "
+    "expansions for an integer exponent n > 1, definition**n otherwise, on the indices of the object. R13e: split_orb_energy "
+    "(classification of every object, num*remainder/denom = term, targets), contains_only_orb_energies tables, "
+    "cancel_denom_brackets / cancel_eri_objects (one power per listing, instance untouched), EriOrbenergy.__init__ (pref*num*eri/denom "
+    "= term, smallest coefficient extracted), factor_and_remove_number, EriOrbenergy.expr. R13f: Obj.block_diagonalize_fock table "
+    "(only f_ov/f_vo vanish; general index keeps the element), Obj.diagonalize_fock table (survivor of delta_pq, exponent kept, "
+    "removed index substituted, off-diagonal 0, both targets: kept, default targets), Term.diagonalize_fock (product, substitutions "
+    "closed under chains and applied, contradictions refused, polynom parent gets product + substitutions, targets set and "
+    "forwarded), Expr.diagonalize_fock (sum, targets kept), polynoms refused. R13g: factor_eri_parts / factor_denom return one "
+    "sub-expression per key term with every matched term transformed by its own substitution / permutation exactly once, "
+    "assumptions kept; find_compatible_eri_parts compares everything but numbers and orbital energies under the targets of the "
+    "full term; reduce_expr conserves the value through its three stages when every vocabulary step is value preserving, refuses "
+    "annihilating substitutions and complex orbitals. R13h: cancel_orb_energy_frac on 17 fractions (weights, powers, shared "
+    "indices, leftovers, signs to fix): the partial fractions add up to pref*eri*num/denom.")
+ASSUMPTIONS = [
+    "bounded: the functions are evaluated on the listed finite families of fractions / terms / index spaces, not for all inputs",
+    "the vocabulary keeps its contract and is modelled, not analysed here: sympy arithmetic and automatic evaluation, "
+    "Expr(...)/copy/expand/doit/factor (value preserving), subs/permute (index replacement), Term.symmetry, evaluate_deltas, "
+    "KroneckerDelta, order_substitutions, find_compatible_terms, find_compatible_denom, minimize_tensor_indices, "
+    "Intermediates/expand_itmd, _validate_num/_validate_denom",
+    "aliasing is modelled only for Expr.subs/permute (in place); in-place arithmetic on Expr is treated as producing a new value",
+    "cancel_orb_energy_frac, permute_num and find_compatible_denom are algorithms: only the value of their result (and the listed "
+    "argument forwarding) is decided, not how far they cancel / which permutations they find",
+    "Term.split_orb_energy is decided for terms whose non-orbital-energy objects have positive exponents (a tensor in the "
+    "denominator, e.g. V/X, is moved to the numerator of the remainder by `Pow(base, abs(exponent))`: outside the documented input "
+    "domain, reported as suspicious)",
+    "the branch of cancel that adds a non-zero number left in the numerator is unreachable for valid numerators (no constant "
+    "terms) and therefore not exercised",
+]
 
 EOM = "eri_orbenergy"
 EO = "eri_orbenergy:EriOrbenergy"
@@ -1379,6 +1423,56 @@ def _reduce_expr(ctx, rule):
     outs = sx.run(fn, lambda: dict(expr=w.expr(t_add(*vals), real=False)))
     ctx.check(rule, fn, all(o.kind == "raise" for o in outs), "complex orbitals refused (intermediates are defined for real orbitals)",
               "reduce_expr accepts an expression that is not real", key="real guard")
+
+
+def run_thorough(ctx):
+    """larger families: all weight / power / leftover combinations for two brackets, all sign patterns of three brackets"""
+    import itertools
+    rule = "R13h"
+    fn = ctx.model.fn(EOd + "cancel_orb_energy_frac")
+    st = {}
+    if ctx.want(rule):
+        ws = (Fraction(1, 2), 1, 2, 3)
+        for w1, w2, e1, e2, left in itertools.product(ws, ws, (1, 2), (1, 2), (None, "l", "k")):
+            w = World(IDX)
+            w.extra_hooks["factor_and_remove_number"] = lambda sx, a, kw, w=w: _far_model(w, sx, a, kw)
+            sx = w.make(ctx, "cancel_orb_energy_frac")
+            num = norm(t_add(t_mul(w1, B(**B1)), t_mul(w2, B(**B2)), *([E(left)] if left else [])))
+            den = norm(t_mul(T("pow", B(**B1), e1), T("pow", B(**B2), e2)))
+
+            def args(num=num, den=den):
+                st["me"] = eo_self(w, Fraction(-1, 3), num, den, ERI)
+                st["val"] = eo_value(st["me"])
+                return dict(self=st["me"])
+            name = f"{w1} B1 + {w2} B2{' + e_' + left if left else ''} over B1**{e1} B2**{e2}"
+            for o in returned(ctx, rule, fn, sx.run(fn, args), f"cancel_orb_energy_frac[{name}]", f"thorough {name}"):
+                vcheck(ctx, rule, fn, o.value, st["val"], f"cancel_orb_energy_frac[{name}]: partial fractions add up to the fraction",
+                       f"cancel_orb_energy_frac[{name}]: the decomposition has a different value", key=f"thorough {name}")
+    rule = "R13a"
+    fn = ctx.model.fn(EOd + "canonicalize_sign")
+    if ctx.want(rule):
+        brs = (B1, B2, dict(l=1, d=-1))
+        for signs, exps, nsign, only in itertools.product(itertools.product((1, -1), repeat=3), ((1, 1, 1), (1, 2, 3), (2, 2, 1)), (1, -1),
+                                                          (False, True)):
+            w = World(IDX)
+            sx = w.make(ctx, "canonicalize_sign")
+            den = norm(t_mul(*[T("pow", B(**{k: v * s_ for k, v in b.items()}), e) for b, s_, e in zip(brs, signs, exps)]))
+
+            def args(den=den, nsign=nsign, only=only):
+                st["me"] = eo_self(w, Fraction(2, 3), B(i=nsign, a=-nsign), den, ERI)
+                st["val"] = eo_value(st["me"])
+                return dict(self=st["me"], only_denom=only)
+            name = f"signs {signs} powers {exps} numerator {nsign} only_denom={only}"
+            for o in returned(ctx, rule, fn, sx.run(fn, args), f"canonicalize_sign[{name}]", f"thorough {name}"):
+                me = st["me"]
+                vcheck(ctx, rule, fn, eo_value(me), st["val"], f"canonicalize_sign[{name}]: value unchanged",
+                       f"canonicalize_sign[{name}]: value changed", key=f"thorough {name} value")
+                dv = norm(raw(me.attrs["_denom"]))
+                fs = list(dv.args) if isinstance(dv, T) and dv.op == "mul" else [dv]
+                okd = all(_canonical(w, linear_form(f_.args[0] if isinstance(f_, T) and f_.op == "pow" else f_)) for f_ in fs if not is_num(f_))
+                okn = only or _canonical(w, linear_form(raw(me.attrs["_num"])))
+                ctx.check(rule, fn, okd and okn, f"canonicalize_sign[{name}]: canonical signs", f"canonicalize_sign[{name}]: left as "
+                          f"{fmt(me.attrs['_num'])} / {fmt(dv)}", key=f"thorough {name} signs")
 
 
 def run(ctx):
